@@ -315,4 +315,4 @@ def run(tier: str, seed: int) -> dict:
         "every front member attains the best aggregate so far, flag => attains it, strict improvement => flag.  RandomSearch, OnePlusOne, HC(1,3,5 mutations), GeneticProgramming(pop 2,3,5,8; "
         "also multi-objective) on table landscapes x both directions x EvaluationBudget n: search() returns the tracker's best, no evaluated individual is strictly better, flags as above"
     )
-    return result(evaluations, nontrivial, rule, samples, find.violations(), exhaustive=complete, tracker_history_cases=n_hist, search_runs=runs, notes=notes[:6], histories_exhaustive=complete)
+    return result(evaluations, nontrivial, rule, samples, find.violations(), exhaustive=False, tracker_history_cases=n_hist, search_runs=runs, notes=notes[:6], histories_exhaustive=complete)
